@@ -482,6 +482,10 @@ def bool_eval(e: ast.AST, env: dict[str, bool]) -> bool | None:
         return bool_eval(e.args[0], env)
     if isinstance(e, ast.Constant) and isinstance(e.value, bool):
         return e.value
+    if isinstance(e, ast.Compare) and len(e.ops) == 1 and isinstance(e.ops[0], (ast.Eq, ast.NotEq, ast.Is, ast.IsNot)) and not (isinstance(e.comparators[0], ast.Constant) and e.comparators[0].value is None):
+        l_, r_ = bool_eval(e.left, env), bool_eval(e.comparators[0], env)
+        if l_ is not None and r_ is not None:
+            return (l_ == r_) if isinstance(e.ops[0], (ast.Eq, ast.Is)) else (l_ != r_)
     t, pol = _atom(e)
     if t not in env:
         return None
